@@ -1,8 +1,12 @@
 ENTRY = dict(
-    runner="C17", pkg="./cmd/c17", corr=["Corr.C17Corr"], n=dict(quick=400, thorough=1200), runner_timeout=900,
+    runner="C17", pkg="./cmd/c17", corr=["Corr.C17Corr"], n=dict(quick=660, thorough=1500), runner_timeout=900,
     rule="every predefined parrot whose wire hello offers TLS 1.3 with a key_share (found at run time) over loopback TCP against "
          "the scripted server (verif_server.go): a HelloRetryRequest for EACH classical group (X25519, P-256, P-384, P-521) the "
-         "parrot lists in supported_groups without a share x cookie in {none, 1, 32, 255, 4094 bytes}; a cookie-only "
+         "parrot lists in supported_groups without a share x cookie in {none, 1, 32, 255, 4094 bytes}, and x EVERY TLS 1.3 cipher suite the parrot "
+         "offers (the server made to select 0x1301 / 0x1302 / 0x1303: SHA-256 and SHA-384 transcripts); one *tls.Config SHARED with a second "
+         "UConn of another TLS 1.3 parrot that builds its handshake state between the first flight and the HelloRetryRequest (from the "
+         "scripted server's OnClientHello): a partner listing a group this hello does not (HRR for it must be refused) resp. not listing "
+         "the valid group (HRR must be accepted), with and without Config.CurvePreferences pre-set by the application; a cookie-only "
          "HelloRetryRequest (16 and 300 bytes); invalid ones: the first of P-521/P-384/P-256/X25519/x448 the parrot does not list "
          "(with and without cookie), each non-GREASE group it already sent a share for (X25519MLKEM768 included), and a "
          "HelloRetryRequest with neither group nor cookie. Both ClientHellos are cut out of the client's byte stream. "
